@@ -70,6 +70,18 @@ func TestC05(t *testing.T) {
 
 func init() {
 	postRun["C08"] = func(rt *rapid.T, w *World, l *LState) {
+		// a dry run replayed by the retry path (its first attempt is the victim of a deadlock at a drawn statement)
+		// must still append nothing to the journal
+		if rapid.IntRange(0, 1).Draw(rt, "dryRunUnderDeadlock") == 0 {
+			before := len(w.Env.Sim.Rows(l.Bucket, "logs"))
+			k := rapid.IntRange(1, 8).Draw(rt, "deadlockAtStatement")
+			req := TxRequest{Postings: ledger.Postings{ledger.NewPosting("world", "bank", "USD/2", big.NewInt(3))}, DryRun: true}
+			var out TxOutcome
+			tr := withFault(w.Env.Sim, faultPlan{Kind: "deadlock", At: k}, func() { out = w.CreateTx(l, req) })
+			if after := len(w.Env.Sim.Rows(l.Bucket, "logs")); after != before {
+				w.V("C08", "a dry run (deadlock injected at statement %d, fired=%v, outcome %v) appended %d log(s) to the journal\nhistory:\n  %s", k, tr.Fired, out.Err, after-before, l.History())
+			}
+		}
 		logs := w.CheckLogs(l, 15, paginate.OrderAsc)
 		replayed, err := ReplayLogs(logs)
 		if err != nil {
